@@ -22,6 +22,7 @@ class BaseMonitor:
         self.never_false = never_false
         self.linked = linked            # predicate(e, cq) -> True when a rule boundary is to be inlined (linked mode)
         self.record_events = False
+        self.hooks_opaque = False
 
     # ---- generic hooks ----------------------------------------------------------------
     def roots(self, st): return []
@@ -146,9 +147,9 @@ class BaseMonitor:
                 return self.oracle(ex, e, cq, inp, REQ, st, fr)
         if self.record_events and cn in HOOKS and e.get('cc') and e.get('static') and av:
             vals = [ex.argval(a, st) for a in av]
-            if any(self.input_of(ex, v, st) is not None for v in vals[:2]):
+            if any(self.input_of(ex, v, st) is not None or (isinstance(v, Cur) and i == 0) for i, v in enumerate(vals[:2])):
                 fn = self.db.get(cu)
-                if fn is None or fn.get('body') is None:
+                if self.hooks_opaque or fn is None or fn.get('body') is None:
                     return self.hook_event(ex, e, cn, vals, st, fr)
         return None
 
@@ -170,6 +171,7 @@ class BaseMonitor:
         return g()
 
     def hook_event(self, ex, e, cn, vals, st, fr):
+        self.on_hook(ex, e, cn, vals, st, fr)
         def g():
             s1 = st.copy(); s1.events.append(cn)
             if cn in ('raise', 'raise_nested') or e.get('noret'):
@@ -213,6 +215,7 @@ class BaseMonitor:
         return g()
 
     def after_oracle(self, ex, st, inp, what): pass
+    def on_hook(self, ex, e, cn, vals, st, fr): pass
 
     def label(self, e, cq):
         cc = e.get('cc') or {}
